@@ -115,6 +115,24 @@ def pAddrList? (t : String) : Option (List Addr) :=
 def pAddrTokList? (t : String) : Option (List AddrTok) :=
   if t = "-" then some [.empty] else (t.splitOn ",").mapM (fun x => if x = "" then some .empty else pAddrTok? x)
 
+def hexVal (c : Char) : Option Nat :=
+  if '0' ≤ c ∧ c ≤ '9' then some (c.toNat - '0'.toNat)
+  else if 'a' ≤ c ∧ c ≤ 'f' then some (c.toNat - 'a'.toNat + 10)
+  else none
+
+/-- lower-case hex string → bytes (`-` = empty) -/
+def pHex? (t : String) : Option (List Nat) :=
+  if t = "-" then some [] else
+  let rec go : List Char → Option (List Nat)
+    | [] => some []
+    | [_] => none
+    | a :: b :: rest => do
+      let x ← hexVal a
+      let y ← hexVal b
+      let r ← go rest
+      pure ((x * 16 + y) :: r)
+  go t.toList
+
 /-- `key=value` lookup in a token list -/
 def kv (toks : List String) (key : String) : Option String :=
   (toks.find? (·.startsWith (key ++ "="))).map (fun t => (t.drop (key.length + 1)).toString)
@@ -261,6 +279,7 @@ def genLine (c : GenCfg) (toks : List String) : Option GenCfg :=
     pure { c with bcn := ← pRegParamsToks? [← kv rest "denom", ← kv rest "reg", ← kv rest "rec", ← kv rest "buy", ← kv rest "def", ← kv rest "max"]
                   bcnStart := ← (← kv rest "startid").toNat? }
   | ["str", f] => do pure { c with strFee := ← (← kv [f] "fee").toInt? }
+  | ["addr", tok, hex] => do pure { c with addrBytes := c.addrBytes ++ [(← pAddr? tok, ← pHex? hex)] }
   | _ => none
 
 /-- process one script line: new interpreter state and the trace lines it emits -/
